@@ -24,7 +24,7 @@ import (
 func TestVerifC18(t *testing.T) {
 	vfMain(t, vfCheck{
 		ID: "C18", Level: "exploration",
-		Rule:        "seeded determinate phased programs (phases of up to 64 pipelined READs of files with distinct contents, WRITEs to disjoint ranges, mixed path/handle commands) served twice by the same server kind on identical state, allocator off and on; delays at the send/worker hooks, bounded transport. A class is (server, phase shape, buffer mode); non-trivial when pages were reused (allocGet returned a previously released page).",
+		Rule:        "seeded determinate phased programs (phases of up to 64 pipelined READs of files with distinct contents, WRITEs to disjoint ranges, mixed path/handle commands; one program in four with WithMaxTxPacket/WithRSMaxTxPacket raised to 64 KiB..256 KiB and READs around that size) served twice by the same server kind on identical state, allocator off and on; delays at the send/worker hooks, bounded transport. A class is (server, phase shape, buffer mode); non-trivial when pages were reused (allocGet returned a previously released page).",
 		Assumptions: []string{"race detector on", "at quiescence the receive loop legitimately holds one page tagged with the next, not yet assigned order id"},
 		Units: func(tier vfTier, seed uint64) int {
 			if tier == vfThorough {
@@ -86,6 +86,7 @@ func (s *c18Shadow) on(ev vfHookEv) {
 }
 
 type c18Env struct {
+	maxTx uint32 // server option WithMaxTxPacket / WithRSMaxTxPacket (0 = default)
 	kind  vfKind
 	dir   string
 	tmpl  string
@@ -96,6 +97,9 @@ type c18Env struct {
 
 func c18Fill(e *c18Env, u *vfUnit) {
 	e.sizes = []int{0, 1, 100, 4000, 32768, 32769, 70000, 5000}
+	if e.maxTx > 0 {
+		e.sizes = append(e.sizes, 300000, 262145)
+	}
 	when := time.Unix(1600000000, 0)
 	if e.kind == vfOS {
 		vfChmodAll(e.dir)
@@ -161,7 +165,15 @@ func c18Program(r *vfRand, e *c18Env) []c18Phase {
 				if e.sizes[f] > 0 {
 					off = r.Intn(e.sizes[f] + 10)
 				}
-				ph = append(ph, vfPkt{Type: rfRead, ID: next(), Handle: hfile(f), Off: uint64(off), Len: uint32(vfPick(r, []int{0, 1, 100, 4096, 32768, 40000}))})
+				lens := []int{0, 1, 100, 4096, 32768, 40000}
+				if e.maxTx > 0 {
+					// reads around the configured maximum payload and around the 256 KiB page size
+					lens = append(lens, 65536, int(e.maxTx)-1, int(e.maxTx), int(e.maxTx)+1, 262131, 262132, 262143, 262144, 300000)
+					if i%2 == 0 {
+						f, off = nf-2+r.Intn(2), r.Intn(30000)
+					}
+				}
+				ph = append(ph, vfPkt{Type: rfRead, ID: next(), Handle: hfile(f), Off: uint64(off), Len: uint32(vfPick(r, lens))})
 			}
 		case 1: // writes to disjoint ranges of the write file + reads of other files
 			n := 1 + r.Intn(40)
@@ -216,7 +228,7 @@ func c18Program(r *vfRand, e *c18Env) []c18Phase {
 
 // c18Serve runs the program against a fresh server and returns the concatenated response bodies per phase.
 func c18Serve(u *vfUnit, e *c18Env, alloc bool, prog []c18Phase, buf int, shadow *c18Shadow, label string) ([][]byte, bool) {
-	cfg := vfSrvCfg{Kind: e.kind, Alloc: alloc}
+	cfg := vfSrvCfg{Kind: e.kind, Alloc: alloc, MaxTx: e.maxTx}
 	if e.kind == vfRS {
 		cfg.H = e.store.Handlers(vfHandlerOpt{OpenFile: true, CmdAll: true, ListAll: true})
 	}
@@ -299,11 +311,17 @@ func c18Run(u *vfUnit) {
 	if kind == vfOS {
 		e.dir = filepath.Join(u.TempDir(), "tree")
 	}
-	for pi := 0; pi < 3; pi++ {
+	for pi := 0; pi < 4; pi++ {
+		// the fourth program of a unit runs with a raised maximum payload (up to the 256 KiB page size)
+		e.maxTx = 0
+		if pi == 3 {
+			e.maxTx = []uint32{65536, 262144, 100000, 262131}[(u.Index/2)%4]
+			u.Count("programs_with_raised_max_payload", 1)
+		}
 		c18Fill(e, u)
 		prog := c18Program(r, e)
 		buf := []int{0, 4096, 0}[(pi+u.Index)%3]
-		label := fmt.Sprintf("%v/buf=%d/phases=%d", kind, buf, len(prog))
+		label := fmt.Sprintf("%v/buf=%d/phases=%d/maxTx=%d", kind, buf, len(prog), e.maxTx)
 		u.Eval(label + fmt.Sprint(pi))
 		u.Count("programs", 1)
 		total := 0
